@@ -4,6 +4,7 @@ package c06
 import (
 	"bytes"
 	"compress/zlib"
+	"encoding/binary"
 	"fmt"
 	"io"
 	"path/filepath"
@@ -682,7 +683,7 @@ func TestC06(t *testing.T) {
 		fmt.Println("REPLAY case passed")
 		return
 	}
-	ev.Rule("rapid: payloads of boundary-biased sizes (1,2,3,..,4095/4096/4097, 8191-8193, 65518-65521, 65519k±1, 131037-131039, up to 1 MiB quick / 8 MiB thorough), compressible or incompressible or a valid ICC profile (half with random flags, intent, creator, ID; the raw bytes are read again after ICCProfile()/Description() on the same metadata value); PNG iCCP (name 1-79 bytes, store/1/6/9/huffman-only, anywhere before IDAT), JPEG APP2 (1-255 chunks of 1..65519 bytes, ascending/descending/random order, SOF before/between/after, fillers interleaved (plain segments, the real-world application-segment vocabulary - JFIF, Exif, XMP, MPF, FlashPix, Photoshop resources, Adobe - and APP2 segments with another or a near-miss identifier whose bytes 12/13 look like a chunk number and total); every permutation of <= 4 (quick) / 5 (thorough) chunks), WebP VP8X+ICCP (odd/even); no-profile variants; one damage class per case: PNG corrupt deflate (flips/truncation/adler), JPEG missing chunk / out-of-range number / inconsistent total, WebP flag without ICCP / truncated ICCP. A quarter of the files go through the auto-detecting loader, a quarter are read from a standard-library reader type positioned after 0..4096 unrelated bytes. Oracle: round trip; (nil,nil); for damage a reference model of the earliest legitimate stopping point (error mandatory before it, validity predicate after it); deflate damage judged by compress/zlib. non-trivial = distinct case with a damage class or a payload > 4096 bytes")
+	ev.Rule("rapid: payloads of boundary-biased sizes (1,2,3,..,4095/4096/4097, 8191-8193, 65518-65521, 65519k±1, 131037-131039, up to 1 MiB quick / 8 MiB thorough; fixed PNG profiles of 8-16 MiB (thorough 48 MiB) that deflate at the format's limit of about 1030:1), compressible or incompressible or a valid ICC profile (half with random flags, intent, creator, ID; the raw bytes are read again after ICCProfile()/Description() on the same metadata value); PNG iCCP (name 1-79 bytes, store/1/6/9/huffman-only, anywhere before IDAT), JPEG APP2 (1-255 chunks of 1..65519 bytes, ascending/descending/random order, SOF before/between/after, fillers interleaved (plain segments, the real-world application-segment vocabulary - JFIF, Exif, XMP, MPF, FlashPix, Photoshop resources, Adobe - and APP2 segments with another or a near-miss identifier whose bytes 12/13 look like a chunk number and total); every permutation of <= 4 (quick) / 5 (thorough) chunks), WebP VP8X+ICCP (odd/even); no-profile variants; one damage class per case: PNG corrupt deflate (flips/truncation/adler), JPEG missing chunk / out-of-range number / inconsistent total, WebP flag without ICCP / truncated ICCP. A quarter of the files go through the auto-detecting loader, a quarter are read from a standard-library reader type positioned after 0..4096 unrelated bytes. Oracle: round trip; (nil,nil); for damage a reference model of the earliest legitimate stopping point (error mandatory before it, validity predicate after it); deflate damage judged by compress/zlib. non-trivial = distinct case with a damage class or a payload > 4096 bytes")
 	ev.Assume("harness builders; compress/zlib decides whether a damaged stream still inflates")
 	maxICC := ev.Pick(1<<20, 8<<20)
 	// all permutations of small chunk counts
@@ -759,6 +760,29 @@ func TestC06(t *testing.T) {
 			}
 		}
 	}
+	// PNG profiles that deflate at the format's limit (about 1030:1): megabytes of one repeated byte behind a small
+	// header, or long runs of a few bytes, at the default and the best compression level
+	for i, n := range []int{8 << 20, 16<<20 + 1, ev.Pick(12<<20+4099, 48<<20)} {
+		for _, level := range []int{-1, 9} {
+			prof := make([]byte, n)
+			binary.BigEndian.PutUint32(prof, uint32(n))
+			copy(prof[36:], "acsp")
+			if i == 1 {
+				for k := 128; k < n; k++ {
+					prof[k] = byte(k >> 22) // runs of 4 MiB
+				}
+			}
+			c := bigCase("PNG", prof, level)
+			c.Desc += fmt.Sprintf(", zeros or 4 MiB runs behind a size field and a signature, zlib level %d, compressed %d:1", level, len(prof)/(len(c.Data)-100))
+			ev.Eval(1)
+			ev.NT(ev.Hash("limit-ratio", n, level))
+			if k, w := check(c); k != "" {
+				c.Data, c.Expect.Profile = nil, nil
+				ev.Violation("icc", k, w, c)
+			}
+		}
+	}
+	ev.Class("png-profiles-at-the-deflate-ratio-limit", 6)
 	// a profile among bulky neighbours: 1.3 MiB (thorough 20 MiB) of full-size APP1/COM segments before, between and
 	// after the chunks of a small profile, frame header last - extended XMP, depth maps and thumbnails are that big
 	for _, total := range []int{1300 << 10, ev.Pick(2<<20+77, 20<<20)} {
